@@ -305,6 +305,7 @@ def run_property(modname, tier, seed):
                    'known_keys': sorted(known.keys())}
             tasks.append((modname, pi, ctx))
     # regression corpus first (in-process, seconds)
+    replay_corpus.known = {}
     reg_viol = replay_corpus(mod, parts, known)
     mpctx = mp.get_context('spawn')
     results = []
@@ -348,11 +349,14 @@ def run_property(modname, tier, seed):
             agg['known'].setdefault(k, dict(v, part=pname))
     for k, v in reg_viol.items():
         agg['violations'].setdefault(k, v)
+    for k, v in replay_corpus.known.items():     # open known findings reproduced by their committed replay files
+        agg['known'].setdefault(k, v)
     wall = time.time() - t0
     # output
     code = 0
     for k, v in sorted(agg['known'].items()):
         print(f"KNOWN-FINDING: property={prop} {known[k]['what']}")
+        write_replay(prop, v.get('part', '?'), k, v['desc'], v['msg'], sub='known')
     for k, v in sorted(agg['violations'].items()):
         path = write_replay(prop, v['part'], k, v['desc'], v['msg'])
         print(f"VIOLATION property={prop} replay={path}")
@@ -404,9 +408,9 @@ def run_property(modname, tier, seed):
     return code
 
 
-def write_replay(prop, part, key, desc, msg):
+def write_replay(prop, part, key, desc, msg, sub=None):
     from .common import jdump
-    d = os.path.join(OUT_REPLAYS, prop)
+    d = os.path.join(OUT_REPLAYS if sub is None else os.path.join(os.path.dirname(OUT_REPLAYS), sub), prop)
     os.makedirs(d, exist_ok=True)
     h = dhash({'part': part, 'desc': desc})[:12]
     path = os.path.join(d, f'{h}.json')
@@ -434,8 +438,13 @@ def replay_corpus(mod, parts, known):
             r = part.execute(rp['desc'])
             if r.status == 'violation' and r.key not in known:
                 out[r.key] = {'desc': rp['desc'], 'msg': r.msg, 'part': rp['part']}
+            elif r.status == 'violation':
+                replay_corpus.known[r.key] = {'desc': rp['desc'], 'msg': r.msg, 'part': rp['part']}
     replay_corpus.last_count = count
     return out
+
+
+replay_corpus.known = {}
 
 
 def replay_file(modname, path):
